@@ -13,12 +13,20 @@ NAMES = ['alpha', 'beta', 'gamma', 'delta', 'eps', 'zeta', 'eta', 'theta', 'iota
 def gen_case(rng):
     n = rng.choice([3, 4, 5, 6])
     return {'kind': 'initorder', 'names': rng.sample(NAMES, n), 'steps': rng.choice([0, 0, 1]),
-            'values': [rng.randrange(1, 100) for _ in range(n)]}
+            'values': [rng.randrange(1, 100) for _ in range(n)],
+            'mode': rng.choice(['order', 'order', 'other-composite', 'dict-values']),
+            'dicts': rng.choice([['sub', 'super'], ['super', 'sub'], ['same', 'same'], ['sub', 'other']])}
 
 
 def corpus():
     return [{'kind': 'initorder', 'names': ['alpha', 'beta', 'gamma'], 'steps': 0, 'values': [1, 2, 3]},
-            {'kind': 'initorder', 'names': ['zeta', 'p1', 'q', 'eps', 'kappa'], 'steps': 1, 'values': [5, 4, 3, 2, 1]}]
+            {'kind': 'initorder', 'names': ['zeta', 'p1', 'q', 'eps', 'kappa'], 'steps': 1, 'values': [5, 4, 3, 2, 1]},
+            # a state merged into one composite must not show in a composite built afterwards
+            {'kind': 'initorder', 'names': ['alpha', 'beta', 'gamma'], 'steps': 0, 'values': [1, 2, 3],
+             'mode': 'other-composite'},
+            # dictionary `_value` declarations that differ (one a strict superset of the other) are incompatible
+            {'kind': 'initorder', 'names': ['alpha', 'beta'], 'steps': 0, 'values': [1, 2], 'mode': 'dict-values',
+             'dicts': ['sub', 'super']}]
 
 
 def run_impl(case):
@@ -50,8 +58,35 @@ def run_impl(case):
         def next_update(self, timestep, states):
             return {}
 
+    DICTS = {'sub': {'glc': 1.0}, 'super': {'glc': 1.0, 'lac': 2.0}, 'same': {'glc': 1.0, 'lac': 2.0},
+             'other': {'glc': 3.0}}
+
+    class D(Process):
+        defaults = {'which': 'sub'}
+
+        def ports_schema(self):
+            return {'s': {'pool': {'_value': dict(DICTS[self.parameters['which']]), '_updater': 'set'}}}
+
+        def next_update(self, timestep, states):
+            return {}
+
     obs = {}
+    if case.get('mode') == 'dict-values':
+        try:
+            a, b = case['dicts']
+            Engine(processes={'first': D({'which': a}), 'second': D({'which': b})},
+                   topology={'first': {'s': ('s',)}, 'second': {'s': ('s',)}}, emitter={'type': 'null'},
+                   display_info=False, progress_bar=False)
+            obs['built'] = True
+        except Exception as e:  # noqa
+            obs['built'] = False
+            obs['error'] = type(e).__name__
+        return obs
     try:
+        if case.get('mode') == 'other-composite':
+            # an unrelated composite, built earlier, into which a state is merged
+            earlier = Composite({'processes': {'e': P({'v': 7})}, 'topology': {'e': {'s': ('s',)}}})
+            earlier.merge(state={'s': {'x': 5000}})
         k = case['steps']
         names, values = case['names'], case['values']
         procs = {n: P({'v': v}) for n, v in zip(names[:len(names) - k], values)}
@@ -74,6 +109,14 @@ def oracle(case, impl):
         return []
     if impl.get('raised'):
         return [f'engine-raised: {impl["raised"]}']
+    if case.get('mode') == 'dict-values':
+        a, b = case['dicts']
+        same = a == b or (a, b) in (('super', 'same'), ('same', 'super'))
+        if impl['built'] != same:
+            return [f'incompatible-values: two processes declare `_value` {a!r} and {b!r} dictionaries for one '
+                    f'variable; construction {"succeeded" if impl["built"] else "raised " + str(impl.get("error"))}, '
+                    f'declarations that differ must be rejected and equal ones accepted']
+        return []
     want = case['values'][-1]          # processes in declaration order, then steps: the last declared wins
     if impl['initial'] != want or impl['engine'] != want:
         return [f'declaration-order: processes {case["names"]} propose {case["values"]} for one variable; '
